@@ -16,8 +16,8 @@ def cbytes(b: bytes) -> str:
     return "(List.concat [" + ";".join(_cbytes(b[i:i + 64]) for i in range(0, len(b), 64)) + "])"
 
 ID = "C36"
-QUICK_N = 1800
-THOROUGH_N = 52000
+QUICK_N = 5000
+THOROUGH_N = 60000
 SHARD = 150
 RULE = ("kinds: dumps(value tree) 14%, load(bytes) 24%, pop(bytes) 20%, FlowReader.stream over small records with a "
         "stubbed from_state raising every exception class 24%, nesting around the interpreter recursion budget 2%, "
@@ -742,7 +742,8 @@ def state_eq(a, b) -> bool:
     if type(a) is not type(b):
         return False
     if isinstance(a, dict):
-        return len(a) == len(b) and all(k in b and state_eq(v, b[k]) for k, v in a.items())
+        # keys matched with the same equality (a nan key is not == to itself)
+        return len(a) == len(b) and all(any(state_eq(k, k2) and state_eq(v, v2) for k2, v2 in b.items()) for k, v in a.items())
     if isinstance(a, (list, tuple)):
         return len(a) == len(b) and all(state_eq(x, y) for x, y in zip(a, b))
     return a == b
